@@ -200,6 +200,8 @@ package parse
 //@ func (*TreeShapeListener).exitSetOrSequence_type
 //@   assert @store:F.sysl.Type.Opt [opt-moves-to-wrapper] ite(fresh(target), stored == s.currentType().Opt, target == s.currentType() || stored == false)
 //@   assert @store:F.sysl.Type.Attrs [attrs-move-to-wrapper] ite(fresh(target), stored == s.currentType().Attrs, stored == nil)
+//@   ensures [element-loses-optionality-on-every-path] !result0.Opt
+//@   ensures [wrapper-keeps-the-optionality] result1.Opt == old(s.currentType().Opt)
 
 // int32 / int64 / float32 / float64 are INT / FLOAT with the bit width (and, for integers, the value range) of the name.
 //@ spec upperName(native iface) string = strings.ToUpper(native.GetText())
